@@ -77,6 +77,9 @@ for c in checks:
             if os.path.exists(pth):
                 os.remove(pth)
 clean()
+if meta.get("rebuilt_ext") is not None:
+    # the in-place extensions were built from the mutated .pyx: rebuild from the clean sources
+    sh("/venv/bin/python setup.py build_ext --inplace && rm -rf build", wt)
 d = f"/verif/seeded/{tag}"
 os.makedirs(d, exist_ok=True)
 shutil.copy(diff, f"{d}/patch.diff")
